@@ -151,7 +151,4 @@ UnrecoverableStops == [][ (pc = "enter" /\ flag \notin Recoverable \cup {ResetFl
 (* integrated time only moves forward except at a reset to the initial state *)
 NoRewind == [][ tau' >= tau \/ (pc = "reinit" /\ tmp = 0) ]_vars
 Terminates == <>(pc = "done")
-
-\* for the exhaustive configs
-DepthOK == TLCGet("level") <= 400
 =============================================================================
